@@ -1258,11 +1258,18 @@ class Mailbox:
         # request _AND_ if the size of the mailbox changes. These can be
         # sent to any client, idling, executing a command, or otherwise.
         #
+        # NOTE: A client that still has EXPUNGEs waiting to be sent to it must
+        #       see those first: the new message count only makes sense once
+        #       the client has removed the expunged messages from its view.
+        #
         notifications = []
         notifications.append(f"* {num_msgs} EXISTS\r\n")
         notifications.append(f"* {num_recent} RECENT\r\n")
         for c in self.clients.values():
-            await c.client.push(*notifications)
+            if c.pending_expunges():
+                c.pending_notifications.extend(notifications)
+            else:
+                await c.client.push(*notifications)
 
         self.num_msgs = num_msgs
         self.num_recent = num_recent
